@@ -60,7 +60,7 @@ def run_spec(ctx, rep, spec, model, only=None):
                             rep.tie(f"binary-data validation: the Lean model says {dv} for a well-formed plotfile the validator accepts", case)
     if model and only is None:
         row_edits(ctx, rep, spec, tree)
-    if only is None or only.get("after_rejection"):
+    if only is None and ctx.rng.random() < 0.2:
         after_rejection(ctx, rep, spec, tree, path)
     wf_idx = []
     if model and only is None and len(set(spec["fields"])) == len(spec["fields"]):
@@ -144,24 +144,36 @@ def row_edits(ctx, rep, spec, tree):
             rep.tie(f"binary-data validation of a level header with a {kind} entry: validator says {real} (raised={raised}), the Lean model {mv}", case)
 
 
-def raw_taste(path, **kw):
-    """the validator with the process pools it creates itself (no substituted pool): what a rejection does to a pool shows"""
-    from amr_kitchen.taste.taste import Taster
-    from ..common import quiet, alarm, CaseTimeout
+def fresh_process_tastes(calls):
+    """runs the validator calls [(path, kwargs), ...] one after the other in ONE fresh Python process with the process pools
+    the validator creates itself; returns [(good, raised exception name or None), ...] or None when the process failed"""
+    import subprocess, sys, json
+    from ..common import REPO
+    script = (
+        "import sys, json, io, contextlib\n"
+        f"sys.path.insert(0, {REPO!r})\n"
+        "from amr_kitchen.taste.taste import Taster\n"
+        "calls = json.loads(sys.argv[1]); res = []\n"
+        "for p, kw in calls:\n"
+        "    try:\n"
+        "        with contextlib.redirect_stdout(io.StringIO()):\n"
+        "            res.append([bool(Taster(p, verbose=0, **kw)), None])\n"
+        "    except BaseException as e:\n"
+        "        res.append([False, type(e).__name__])\n"
+        "print('RESULT' + json.dumps(res))\n")
     try:
-        with alarm(120), quiet():
-            return bool(Taster(path, verbose=0, **kw)), None
-    except CaseTimeout:
-        return False, "TIMEOUT"
-    except BaseException as e:
-        if isinstance(e, KeyboardInterrupt):
-            raise
-        return False, type(e).__name__
+        r = subprocess.run([sys.executable, "-c", script, json.dumps(calls)], capture_output=True, text=True, timeout=300)
+    except subprocess.TimeoutExpired:
+        return None
+    for line in r.stdout.split("\n"):
+        if line.startswith("RESULT"):
+            return [tuple(x) for x in json.loads(line[6:])]
+    return None
 
 
 def after_rejection(ctx, rep, spec, tree, path):
-    """a history in ONE process: a plotfile with a wrong recorded extremum is rejected under binary_data (failing mode: the
-    validator raises part-way through its work), then the well-formed plotfile is validated under several option sets"""
+    """a history in ONE (fresh) process: a plotfile with a wrong recorded extremum is rejected under binary_data (failing mode:
+    the validator raises part-way through its work), then the well-formed plotfile is validated under several option sets"""
     nf = len(spec["fields"])
     rel = "Level_0/Cell_H"
     new = edit_row(tree.get(rel, b""), nf, 1, 0, 0, "far") if rel in tree else None
@@ -172,16 +184,20 @@ def after_rejection(ctx, rep, spec, tree, path):
     tastelib.write_tree(t2, p2)
     case = {"spec": spec, "after_rejection": True}
     rep.case({"s": spec, "after_rejection": True}, nontrivial=True); rep.count("history:rejection-then-well-formed")
-    g, r = raw_taste(p2, nofail=False, binary_data=True)
+    calls = [(p2, dict(nofail=False, binary_data=True))]
+    modes = [(opts, nofail) for opts in (OPTS[3], OPTS[1]) for nofail in (False, True)]
+    calls += [(path, dict(nofail=nofail, **opts)) for opts, nofail in modes]
+    res = fresh_process_tastes(calls)
+    if res is None:
+        rep.notes.append("after_rejection: the fresh process gave no result"); return
+    g, r = res[0]
     if g or r is None:
         return          # not rejected: nothing to come after (the verdict itself is compared in row_edits)
-    for opts in (OPTS[3], OPTS[1]):
-        for nofail in (False, True):
-            good, raised = raw_taste(path, nofail=nofail, **opts)
-            if raised is not None or not good:
-                rep.fail(f"after another plotfile was rejected in the same process, a well-formed plotfile is reported bad "
-                         f"(good={good}, raised={raised}, options {opts}, nofail={nofail})", case, obs={"good": good, "raised": raised})
-                return
+    for (opts, nofail), (good, raised) in zip(modes, res[1:]):
+        if raised is not None or not good:
+            rep.fail(f"after another plotfile was rejected in the same process, a well-formed plotfile is reported bad "
+                     f"(good={good}, raised={raised}, options {opts}, nofail={nofail})", case, obs={"good": good, "raised": raised})
+            return
     rep.agree()
 
 
@@ -209,6 +225,10 @@ def directories_session(ctx, rep, seed):
 
 
 def run(ctx, rep, model=True):
+    # first of all (before this process has built any pool of its own kind): a rejection, then well-formed plotfiles
+    spec0 = plotgen.random_spec(ctx.rng, nf=2, data="tags", B=2, layout="scatter")
+    path0 = ctx.newdir("c03_"); plotgen.materialize(spec0, path0)
+    after_rejection(ctx, rep, spec0, tastelib.snapshot(path0), path0)
     directories_session(ctx, rep, ctx.rng.randrange(1 << 30))
     n = 14 if ctx.quick else 80
     for i in range(n):
